@@ -13,7 +13,7 @@
     param: "n" name | "1" num | "*" | "@" | "S" name | "R" name | "i" name num | "c"
     out:   "OK" N field* | "ERR" | "UNSUPPORTED" | "BADCASE" *)
 From Coq Require Import String.
-From BV Require Import Base.Prelude Base.Codec Expand.Model Expand.GlobRef.
+From BV Require Import Base.Prelude Base.Codec Expand.Model Expand.GlobRef Expand.SplitSpec.
 
 Definition tag (s : str) : N := match s with c :: _ => c | [] => 0%N end.
 
@@ -176,44 +176,71 @@ Definition show_res (r : res (list str)) : list str :=
   | Err c => if N.eqb c E_UNSUPPORTED then [lit "UNSUPPORTED"] else [lit "ERR"]
   end.
 
-Definition entry_xp (a : list str) : list str :=
+Definition decode_case (a : list str) : option (N * env * oracles * word) :=
   match a with
   | mode :: ifs_s :: opts :: r0 =>
-      match dec_count_list r0 with None => bad | Some (args_, r1) =>
-      match r1 with [] => bad | nv :: r1' =>
-      match dec_vars (dec_nat nv) r1' with None => bad | Some (vars_, r2) =>
-      match dec_count_list r2 with None => bad | Some (names, r3) =>
-      match dec_pairs r3 with None => bad | Some (cmds, r4) =>
-      match dec_pairs r4 with None => bad | Some (ariths, r5) =>
-      match dec_pairs r5 with None => bad | Some (tildes, r6) =>
-      match dec_pairs r6 with None => bad | Some (ansics, r7) =>
-      match dec_word r7 with None => bad | Some (w, _) =>
+      match dec_count_list r0 with None => None | Some (args_, r1) =>
+      match r1 with [] => None | nv :: r1' =>
+      match dec_vars (dec_nat nv) r1' with None => None | Some (vars_, r2) =>
+      match dec_count_list r2 with None => None | Some (names, r3) =>
+      match dec_pairs r3 with None => None | Some (cmds, r4) =>
+      match dec_pairs r4 with None => None | Some (ariths, r5) =>
+      match dec_pairs r5 with None => None | Some (tildes, r6) =>
+      match dec_pairs r6 with None => None | Some (ansics, r7) =>
+      match dec_word r7 with None => None | Some (w, _) =>
         let e := mkEnv vars_ args_
                    (match ifs_s with 83%N :: v => Some v | _ => None end)
                    (has_flag 102 opts) (has_flag 110 opts) (has_flag 70 opts)
                    (has_flag 101 opts) (has_flag 100 opts) in
-        let o := mk_oracles cmds ariths tildes ansics names in
-        let m := tag mode in
-        if N.eqb m 83 (* S *) then
-          show_res (bind (expand_to_str o e w) (fun s => Ok [s]))
-        else
-          match basic_expand o e w with
-          | Err c => show_res (Err c)
-          | Ok x =>
-              let fs := split_fields e x in
-              if negb (noglob e) && negb (forallb (fun f => negb (existsb (piece_requires o e) f)
-                                                             || supported_field (extglob e) f) fs)
-              then [lit "UNSUPPORTED"]
-              else
-                let r := glob_fields o e fs in
-                if N.eqb m 82 (* R *) then
-                  match r with
-                  | Ok [s] => show_res (Ok [s])
-                  | Ok _ => [lit "ERR"]
-                  | Err c => show_res (Err c)
-                  end
-                else show_res r
-          end
+        Some (tag mode, e, mk_oracles cmds ariths tildes ansics names, w)
       end end end end end end end end end
-  | _ => bad
+  | _ => None
+  end.
+
+(** globbing with the executable reference matcher; UNSUPPORTED when a field needs a pattern
+    construct outside GlobRef's fragment *)
+Definition glob_out (o : oracles) (e : env) (m : N) (fs : list wfield) : list str :=
+  if negb (noglob e) && negb (forallb (fun f => negb (existsb (piece_requires o e) f)
+                                                 || supported_field (extglob e) f) fs)
+  then [lit "UNSUPPORTED"]
+  else
+    let r := glob_fields o e fs in
+    if N.eqb m 82 (* R *) then
+      match r with
+      | Ok [s] => show_res (Ok [s])
+      | Ok _ => [lit "ERR"]
+      | Err c => show_res (Err c)
+      end
+    else show_res r.
+
+Definition entry_xp (a : list str) : list str :=
+  match decode_case a with
+  | None => bad
+  | Some (m, e, o, w) =>
+      if N.eqb m 83 (* S *) then
+        show_res (bind (expand_to_str o e w) (fun s => Ok [s]))
+      else
+        match basic_expand o e w with
+        | Err c => show_res (Err c)
+        | Ok x => glob_out o e m (split_fields e x)
+        end
+  end.
+
+(** the specification (Expand/SplitSpec.v) on the same case *)
+Definition entry_xpspec (a : list str) : list str :=
+  match decode_case a with
+  | None => bad
+  | Some (m, e, o, w) =>
+      match spec_fields o e w with
+      | Err c => show_res (Err c)
+      | Ok fs => glob_out o e m (map pattern_of fs)
+      end
+  end.
+
+(** the recorded class [known_at_null] of Expand/SpecProofs.v, decided by its Gallina definition *)
+From BV Require Import Expand.Proofs Expand.SpecProofs.
+Definition entry_xpknown (a : list str) : list str :=
+  match decode_case a with
+  | None => bad
+  | Some (m, e, o, w) => [enc_bool (known_at_null o e w); enc_bool (frag w)]
   end.
